@@ -67,7 +67,8 @@ int main(int argc, char** argv) {
   std::string mode = a.str("mode", "dfs");
   long from = a.num("from", 0), to = a.num("to", 1L << 40), cap = a.num("cap", 100); int bound = (int)a.num("bound", 2);
   unsigned seed = (unsigned)a.num("seed", 1);
-  bool allStopSites = a.num("stopsites", 1) != 0;
+  long stopSites = a.num("stopsites", 1);     // 0: around callback execution / deregistration only, 1: all, 2: none (guided replay)
+  bool allStopSites = stopSites == 1;
   long kbase = a.num("kbase", 0);
   {   // only one controlled thread runs at a time: keep the whole process on one CPU (a hand-off within a core is much cheaper)
     long ncpu = sysconf(_SC_NPROCESSORS_ONLN); cpu_set_t cs; CPU_ZERO(&cs);
@@ -97,9 +98,11 @@ int main(int argc, char** argv) {
       int drvNexts = sc.value("drvNexts", 1);
       {
         vrt::Ctl c;
+        c.hang_secs = 180;      // a sanitizer report symbolised on a loaded machine must not be cut short by the hang detector
         // quick tier: of inplace_stop_source's own schedule points only those around the execution / deregistration of a callback
         // (its internal interleavings are the subject of C03); thorough: all of them
         if (allStopSites) c.accept = {"stream.", "stop.", "spin_wait"};
+        else if (stopSites == 2) c.accept = {"stream.", "spin_wait"};
         else c.accept = {"stream.", "stop.q2", "stop.q3", "stop.d12", "spin_wait"};
         // thread 1: the consumer
         c.spawn(1, [&] {
@@ -167,9 +170,40 @@ int main(int argc, char** argv) {
     distinct.insert(std::to_string(x) + vrt::sched_json(rr));
   };
 
+  // guided replay of a behaviour of a race model: entries [thread, site(, "arrive" | "maybe")].  The thread is first advanced through
+  // harness-only sites (stream.h.*) until it is parked at `site`, then stepped once ("arrive": not stepped; "maybe": skipped if not there).
+  // A thread that is not where the model says is drift (counted, never an oracle); the rest of the execution is driven to completion.
+  FILE* gout = a.has("gout") ? std::fopen(a.str("gout").c_str(), "a") : nullptr;
+  auto guided = [&](const json& sc, long unit) {
+    return [&, unit](vrt::Ctl& c) {
+      vrt::RunResult r; long entries = 0;
+      for (auto& e : sc["sched"]) {
+        ++entries;
+        int t = e[0].get<int>(); std::string site = e[1].get<std::string>(); std::string how = e.size() > 2 ? e[2].get<std::string>() : "";
+        for (int guard = 0; guard < 8 && std::string(c.site(t)) != site; ++guard) {
+          std::string cur = c.site(t);
+          if (cur.rfind("stream.h.", 0) == 0 && c.enabled(t)) { r.steps.push_back({t, cur}); c.step(t); } else break;
+        }
+        if (std::string(c.site(t)) != site) {
+          if (how != "maybe") { if (!r.drift) r.firstDrift = "entry " + std::to_string(entries) + ": thread " + std::to_string(t) + " at '" + c.site(t) + "' expected '" + site + "'"; ++r.drift; }
+          continue;
+        }
+        if (how == "arrive") continue;
+        if (!c.enabled(t)) { if (!r.drift) r.firstDrift = "entry " + std::to_string(entries) + ": thread " + std::to_string(t) + " not enabled at '" + site + "'"; ++r.drift; continue; }
+        r.steps.push_back({t, site}); c.step(t);
+      }
+      auto rest = vrt::run_all(c, [&](const std::vector<int>& en, int) { return en[0]; });
+      for (auto& st : rest.steps) r.steps.push_back(st);
+      r.unguided = (long)rest.steps.size(); r.deadlock = rest.deadlock;
+      if (gout) { json g = {{"x", unit}, {"drift", r.drift}, {"first", r.firstDrift}, {"entries", entries}, {"rest", r.unguided}}; std::fprintf(gout, "%s\n", g.dump().c_str()); std::fflush(gout); }
+      return r;
+    };
+  };
   for (long x = from; x < to && x < (long)scns.size(); ++x) {
     const json& sc = scns[x];
-    if (mode == "dfs") {
+    if (mode == "guided") {
+      runOne(sc, x, 0, guided(sc, x * 100000 + kbase));
+    } else if (mode == "dfs") {
       vrt::Dfs d; d.bound = bound; long k = 0;
       long capx = cap * sc.value("capx", 1);
       do { runOne(sc, x, k, [&](vrt::Ctl& c) { return vrt::run_dfs(c, d); }); ++k; } while (d.advance() && k < capx);
